@@ -22,9 +22,35 @@ def enum_regions(body, adt, place_filter=None):
             # `otherwise` may be an unreachable block when the match is exhaustive
             if body.term(ow)['k'] != 'unreachable':
                 by_target.setdefault(ow, []).extend(si['otherwise_variants'])
-        for tb, vs in by_target.items():
-            blocks = body.dominated_by(tb)
-            # a target that is also reachable from elsewhere (joined) is dominated by itself only
+        regs = [(tb, vs, set(body.dominated_by(tb))) for tb, vs in by_target.items()]
+        # a target that is also reachable from elsewhere (joined) is dominated by itself only
+        # Arms that converge: `Decimal => Some(Regular(d)), BigDecimal => Some(Big)` followed by one `Some(mode) => read(mode)`
+        # (a classifier spliced into its caller) is the or-pattern arm `Decimal | BigDecimal => read(..)` in two steps.  A
+        # join below the switch all of whose predecessors lie in the regions of some, but not all, of the arms belongs to
+        # each of those arms; the join of all arms is the code after the match and stays with the enclosing function.
+        if len(regs) >= 3:
+            below = set(body.dominated_by(si['bb'])) - {si['bb']}
+            live = set(body.live_blocks())
+            changed = True
+            while changed:
+                changed = False
+                owned = set().union(*[r[2] for r in regs])
+                for J in sorted(below - owned):
+                    if body.is_cleanup(J):
+                        continue
+                    preds = [p for p in body.preds(J) if not body.is_cleanup(p) and p in live]
+                    # (only a join made by value threading - each arm arrives knowing which way the second switch goes -
+                    # is a second step of the dispatch; an ordinary join of the arms that go on is the code after the match)
+                    if len(preds) < 2 or not all(p in owned and body.term(p).get('threaded_value') for p in preds):
+                        continue
+                    owners = [r for r in regs if any(p in r[2] for p in preds)]
+                    if 2 <= len(owners) < len(regs):
+                        dj = set(body.dominated_by(J))
+                        for r in owners:
+                            r[2].update(dj)
+                        changed = True
+                        break
+        for tb, vs, blocks in regs:
             out.append(Region(body, si['bb'], frozenset(vs), tb, blocks, si['place'], si.get('span')))
     return out
 
